@@ -507,40 +507,73 @@ func sortByKey(rows []string) {
 	})
 }
 
+// seriesRows renders every series of a querier: key -> ordered points (t, value token).
+func seriesRows(q storage.Querier) (map[string][][2]string, error) {
+	out := map[string][][2]string{}
+	ss := q.Select(context.Background(), true, nil, labels.MustNewMatcher(labels.MatchRegexp, "__name__", ".*"))
+	for ss.Next() {
+		s := ss.At()
+		it := s.Iterator(nil)
+		var pts [][2]string
+		for vt := it.Next(); vt != chunkenc.ValNone; vt = it.Next() {
+			switch vt {
+			case chunkenc.ValFloat:
+				t, v := it.At()
+				pts = append(pts, [2]string{strconv.FormatInt(t, 10), fmt.Sprintf("V%016x", math.Float64bits(v))})
+			case chunkenc.ValHistogram:
+				t, hh := it.AtHistogram(nil)
+				pts = append(pts, [2]string{strconv.FormatInt(t, 10), tokOfInt(hh)})
+			case chunkenc.ValFloatHistogram:
+				t, fh := it.AtFloatHistogram(nil)
+				pts = append(pts, [2]string{strconv.FormatInt(t, 10), tokOfFloat(fh)})
+			}
+		}
+		if it.Err() != nil {
+			return nil, it.Err()
+		}
+		out[keyTok(s.Labels())] = pts
+	}
+	return out, ss.Err()
+}
+
 func (e *env) dump() (string, string) {
 	q, err := e.db.Querier(math.MinInt64, math.MaxInt64)
 	if err != nil {
 		return "err:" + err.Error(), "-"
 	}
 	defer q.Close()
-	ss := q.Select(context.Background(), true, nil, labels.MustNewMatcher(labels.MatchRegexp, "__name__", ".*"))
-	var rows []string
-	for ss.Next() {
-		s := ss.At()
-		it := s.Iterator(nil)
-		var pts []string
-		for vt := it.Next(); vt != chunkenc.ValNone; vt = it.Next() {
-			switch vt {
-			case chunkenc.ValFloat:
-				t, v := it.At()
-				pts = append(pts, fmt.Sprintf("%d~V%016x", t, math.Float64bits(v)))
-			case chunkenc.ValHistogram:
-				t, hh := it.AtHistogram(nil)
-				pts = append(pts, fmt.Sprintf("%d~%s", t, tokOfInt(hh)))
-			case chunkenc.ValFloatHistogram:
-				t, fh := it.AtFloatHistogram(nil)
-				pts = append(pts, fmt.Sprintf("%d~%s", t, tokOfFloat(fh)))
-			}
-		}
-		if it.Err() != nil {
-			return "err:iter", "-"
-		}
-		if len(pts) > 0 {
-			rows = append(rows, keyTok(s.Labels())+"@"+strings.Join(pts, "/"))
-		}
-	}
-	if ss.Err() != nil {
+	merged, err := seriesRows(q)
+	if err != nil {
 		return "err:select", "-"
+	}
+	// Where an out-of-order sample shares its timestamp with an in-order one, which of the two the merged
+	// querier returns is not specified (C02 leaves it open): the dump shows the in-order value.
+	qi, err := tsdb.NewBlockQuerier(tsdb.NewRangeHead(e.db.Head(), math.MinInt64, math.MaxInt64), math.MinInt64, math.MaxInt64)
+	if err != nil {
+		return "err:" + err.Error(), "-"
+	}
+	defer qi.Close()
+	inorder, err := seriesRows(qi)
+	if err != nil {
+		return "err:select-io", "-"
+	}
+	var rows []string
+	for k, pts := range merged {
+		io := map[string]string{}
+		for _, p := range inorder[k] {
+			io[p[0]] = p[1]
+		}
+		var ps []string
+		for _, p := range pts {
+			v := p[1]
+			if iv, ok := io[p[0]]; ok {
+				v = iv
+			}
+			ps = append(ps, p[0]+"~"+v)
+		}
+		if len(ps) > 0 {
+			rows = append(rows, k+"@"+strings.Join(ps, "/"))
+		}
 	}
 	sortByKey(rows)
 
